@@ -1048,6 +1048,25 @@ impl FixtureDatabase {
     }
 }
 
+// Verification hooks (see analyzer.rs).
+#[cfg(pytest_language_server_verif)]
+impl FixtureDatabase {
+    pub fn verif_should_skip_directory(dir_name: &str) -> bool {
+        Self::should_skip_directory(dir_name)
+    }
+
+    pub fn verif_parse_pytest11_entry_points(content: &str) -> Vec<(String, String)> {
+        Self::parse_pytest11_entry_points(content)
+            .into_iter()
+            .map(|e| (e.name, e.module_path))
+            .collect()
+    }
+
+    pub fn verif_extract_package_name_from_dist_info(dir_name: &str) -> Option<(String, String)> {
+        Self::extract_package_name_from_dist_info(dir_name)
+    }
+}
+
 #[cfg(test)]
 mod tests {
     use super::*;
